@@ -10,8 +10,10 @@
    its own parameter — the first of that name —, else an internal definition of this
    body, else the binding the ENCLOSING lambda resolves lexically (by induction over
    the nesting: the innermost enclosing binder), else the global.                 *)
+From Coq Require Import FMapPositive.
 From MW Require Import Model.Base Model.Datum Model.VmTypes Model.Heap Model.Gc Model.VmBase Model.Compile Model.Vm
-  Proofs.SymtabProofs Proofs.ScopeProofs Proofs.EnvProofs Proofs.FlatProofs.
+  Model.Builtins
+  Proofs.SymtabProofs Proofs.ScopeProofs Proofs.EnvProofs Proofs.FlatProofs Proofs.FlatCompile Proofs.FlatAll.
 Open Scope N_scope.
 
 Theorem C02_own_parameter_wins : forall args internal free iof vararg sym i,
@@ -278,12 +280,23 @@ Qed.
 (* The statement as first written (kept visible, NOT weakened).  It quantifies over every
    machine state, reachable or not, and in that form it is FALSE
    (C02_locations_flat_unrestricted_refuted: a hand-made environment whose slot points to
-   itself).  What is proved instead is its restriction to the states that matter:
-   [C02_locations_flat] below — the body of this statement holds in every state reached by
-   running code from a state satisfying the invariant [finv] (Proofs/FlatProofs.v), which
-   holds of the machine of Vm::new.  Remaining hypotheses, both explicit: [builtins_ok]
-   (reduced by C02_builtins_ok_of to the table other_builtin and to `eval`, i.e. to the
-   compiler emitting bytecode that satisfies [bc_ok]; decidable check [bc_okb]). *)
+   itself).  What is proved instead is its restriction to the states that matter, and that
+   is now UNCONDITIONAL for the machine of marwood:
+     - [C02_locations_flat_eval]: the body of this statement holds in every state reached by
+       Vm::eval of ANY datum (with the real builtin table [other_builtin] of
+       Model/Builtins.v) from a state satisfying the invariant [finv] (Proofs/FlatProofs.v);
+     - [C02_finv_initial], [C02_boot_finv], [C02_booted_finv]: [finv] holds of the machine of
+       Vm::new before and after load_builtins + the prelude (by preservation, [booted] is
+       never evaluated);
+     - [C02_locations_flat_session]: hence it holds in every state a front end can reach
+       from the booted machine by any sequence of evaluations, whatever their outcomes.
+   The three hypotheses of the run-level theorems further down ([builtins_ok ob],
+   [pres b_eval no_lexptr], [pres (prepare_eval e) T]) are discharged by
+   [C02_builtins_ok], [C02_b_eval_finv], [C02_prepare_eval_finv]: the compiler only emits
+   [bc_ok] bytecode ([C02_compile_bc_ok] ...) and every library builtin keeps [finv]
+   (Proofs/FlatCompile.v, FlatListVec.v, FlatPkg.v, FlatAll.v).  Nothing about flatness
+   stays conditional; the builtins WITHOUT a model (libm, rand, time, terminal size: the
+   list of Proofs/BuiltinCoverage.v) answer [panic 99] in the model and are covered as such. *)
 Definition C02_locations_flat_stmt : Prop :=
   forall (s : vm) p k q k2 eid l,
     env_at s p = Some (eid, l) -> list_get l k = Some (VLexPtr q k2) ->
@@ -385,3 +398,142 @@ Proof.
   exists s0, r, s'. split; [reflexivity|]. split; [reflexivity|]. split; [exact E2|].
   exact (finv_step_nocall fx_ob fx_vm OMovImmediate s0 r s' fx_finv R1 eq_refl R2).
 Qed.
+
+
+(* ---- the compiler, the builtin table, whole evaluations, boot: the hypotheses discharged
+   (Proofs/FlatCompile.v, FlatListVec.v, FlatPkg.v, FlatAll.v).
+   [good bc] is the invariant of the REVERSED bytecode of a lambda under construction: no
+   VLexPtr cell; a raw pointer operand only directly after MOV-immediate / JNT / JMP /
+   PUSH-immediate; the cell after a MOV / MOV-immediate opcode is not an opcode.  The compiler
+   CANNOT emit a VLexPtr operand or a MOV into a raw VPtr destination: [bc_ok] is exactly
+   right for reachable code, nothing had to be weakened. *)
+Theorem C02_good_bc_ok : forall bc, good bc -> bc_ok (rev bc).
+Proof. exact good_bc_ok. Qed.
+Print Assumptions C02_good_bc_ok.
+
+(* compile_expression of ANY datum in ANY invariant state, onto any good unfinished lambda
+   (e.g. an empty one): the state afterwards satisfies the invariant — also after a compile
+   error —, the result is good and its finished bytecode satisfies bc_ok *)
+Theorem C02_compile_bc_ok : forall f l tail e s,
+  finv s -> good (l_bc l) ->
+  match compile_expression f l tail e s with
+  | ROk l' s' => finv s' /\ good (l_bc l') /\ bc_ok (l_bc (lambda_finish l'))
+  | RErr _ _ s' => finv s'
+  | _ => True
+  end.
+Proof. exact compile_bc_ok. Qed.
+Print Assumptions C02_compile_bc_ok.
+
+Theorem C02_compile_quasiquote_bc_ok : forall f l e d s,
+  finv s -> good (l_bc l) ->
+  match compile_quasiquote f l e d s with
+  | ROk l' s' => finv s' /\ good (l_bc l') /\ bc_ok (l_bc (lambda_finish l'))
+  | RErr _ _ s' => finv s'
+  | _ => True
+  end.
+Proof. exact compile_quasiquote_bc_ok. Qed.
+Print Assumptions C02_compile_quasiquote_bc_ok.
+
+Theorem C02_compile_runnable_bc_ok : forall e s,
+  finv s ->
+  match compile_runnable e s with
+  | ROk l s' => finv s' /\ bc_ok (l_bc (lambda_finish l))
+  | RErr _ _ s' => finv s'
+  | _ => True
+  end.
+Proof. exact compile_runnable_bc_ok. Qed.
+Print Assumptions C02_compile_runnable_bc_ok.
+
+(* quoted data: Heap::put_cell / maybe_put_cell of any datum keep the invariant *)
+Theorem C02_put_cell_finv : forall c, pres (put_cell_m c) (fun v => exists a, v = VPtr a).
+Proof. exact pres_put_cell_m. Qed.
+Print Assumptions C02_put_cell_finv.
+
+(* (H3) Vm::prepare_eval — transform, compile, install, set %ip — keeps the invariant *)
+Theorem C02_prepare_eval_finv : forall e, pres (prepare_eval e) T.
+Proof. exact prepare_eval_finv. Qed.
+Print Assumptions C02_prepare_eval_finv.
+
+(* (H2) the `eval` builtin *)
+Theorem C02_b_eval_finv : pres b_eval no_lexptr.
+Proof. exact b_eval_finv. Qed.
+Print Assumptions C02_b_eval_finv.
+
+(* (H1) every library builtin of the real table keeps the invariant (also when it fails)
+   and returns a value that is not a VLexPtr; with apply, call/cc, error, display, write
+   (FlatProofs) and eval: *)
+Theorem C02_other_builtin_finv : forall b, pres (other_builtin b) no_lexptr.
+Proof. exact pres_other_builtin. Qed.
+Print Assumptions C02_other_builtin_finv.
+
+Theorem C02_builtins_ok : builtins_ok other_builtin.
+Proof. exact builtins_ok_other. Qed.
+Print Assumptions C02_builtins_ok.
+
+(* UNCONDITIONAL: Vm::eval of any datum from an invariant state ends in an invariant state,
+   whatever the outcome (value, error, compile error) ... *)
+Theorem C02_flat_preserved_eval_all : forall fuel e s res s',
+  finv s -> eval other_builtin fuel e s = ROk res s' -> finv s'.
+Proof. exact eval_finv_all. Qed.
+Print Assumptions C02_flat_preserved_eval_all.
+
+(* ... likewise sliced execution (prepare_eval, then run_count with a budget) ... *)
+Theorem C02_flat_preserved_run_all : forall fuel count s res s',
+  finv s -> run_count other_builtin fuel count s = ROk res s' -> finv s'.
+Proof. exact run_finv. Qed.
+Print Assumptions C02_flat_preserved_run_all.
+
+(* ... and locations are flat there *)
+Theorem C02_locations_flat_eval : forall fuel e s res s',
+  finv s -> eval other_builtin fuel e s = ROk res s' ->
+  forall p k q k2 eid l,
+    env_at s' p = Some (eid, l) -> list_get l k = Some (VLexPtr q k2) ->
+    exists e2 l2 v, env_at s' q = Some (e2, l2) /\ list_get l2 k2 = Some v /\
+                    match v with VLexPtr _ _ => False | _ => True end.
+Proof. exact eval_locations_flat. Qed.
+Print Assumptions C02_locations_flat_eval.
+
+(* boot: Vm::new = load_builtins on the empty machine, then every form of the prelude text.
+   Whatever the prelude, a machine that boots satisfies the invariant — proved by
+   preservation; [booted] is not evaluated *)
+Theorem C02_boot_finv : forall prelude s, boot_with prelude = Some s -> finv s.
+Proof. exact boot_with_finv. Qed.
+Print Assumptions C02_boot_finv.
+
+Theorem C02_booted_finv : forall s, booted = Some s -> finv s.
+Proof. exact booted_finv. Qed.
+Print Assumptions C02_booted_finv.
+
+(* every state reachable from the booted machine by any sequence of evaluations *)
+Theorem C02_locations_flat_session : forall s0 s,
+  booted = Some s0 -> evals s0 s ->
+  forall p k q k2 eid l,
+    env_at s p = Some (eid, l) -> list_get l k = Some (VLexPtr q k2) ->
+    exists e2 l2 v, env_at s q = Some (e2, l2) /\ list_get l2 k2 = Some v /\
+                    match v with VLexPtr _ _ => False | _ => True end.
+Proof. exact session_locations_flat. Qed.
+Print Assumptions C02_locations_flat_session.
+
+(* non-vacuity.  ((lambda (x) ((lambda (y) (lambda () (if x y x))) 2)) 1) on the machine of
+   Vm::new (before load_builtins): it evaluates to a procedure, the final state holds a real
+   VLexPtr in an environment payload (the innermost closure captures x through a pointer),
+   satisfies the invariant and is flat *)
+Example C02_example_eval_flat :
+  exists c s', eval other_builtin 200 fa_datum (vm_empty 64) = ROk (Done c) s' /\
+               has_lexptr s' = true /\ finv s' /\ flat s'.
+Proof. exact fa_example. Qed.
+
+(* the compiler on the same datum: four code objects are installed, all pass the boolean
+   checker bc_okb as well; the entry code is PUSH-immediate argc 0, MOV-immediate <lambda>
+   %acc, CALL, HALT *)
+Example C02_example_compile_bc_ok :
+  exists l s', compile_runnable fa_datum (vm_empty 64) = ROk l s' /\
+    l_bc (lambda_finish l) = [VOp OPushImmediate; VArgc 0; VOp OMovImmediate; VPtr 5; VAcc; VOp OCallAcc; VOp OHalt] /\
+    PositiveMap.cardinal (lams (st s')) = 4%nat /\
+    forallb (fun p => bc_okb (l_bc (snd p))) (PositiveMap.elements (lams (st s'))) = true /\
+    bc_ok (l_bc (lambda_finish l)) /\ finv s'.
+Proof. exact fa_compile. Qed.
+
+(* boot_with succeeds on the empty prelude (load_builtins over the whole generated table) *)
+Example C02_example_boot : exists s, boot_with [] = Some s /\ finv s.
+Proof. exact fa_boot_bare. Qed.
